@@ -421,6 +421,10 @@ func runCase(c *Case) *Result {
 
 	res.Runs = make([]RunResult, len(c.Runs))
 	rawData := make([]any, len(c.Runs))
+	poisonResults := false
+	if v, ok := c.Extra["poison_results"]; ok {
+		_ = json.Unmarshal(v, &poisonResults)
+	}
 	doRun := func(i int) {
 		rs := c.Runs[i]
 		for k, v := range rs.Setenv {
@@ -460,6 +464,13 @@ func runCase(c *Case) *Result {
 			} else if _, uerr := sch.Unserialize(data); uerr != nil {
 				rr.Schema = uerr.Error()
 			}
+			if poisonResults {
+				// the caller owns what a run returned: it is recorded now and then overwritten in place, as a caller may do;
+				// a later run must not see any of it
+				rr.Data = toJSON(data)
+				rawData[i] = nil
+				poison(data)
+			}
 		}
 		rr.RetSeq = splugin.Log("execute-return", rs.Tag, 0, fmt.Sprint(i), map[string]any{"id": id, "err": rr.Err})
 		res.Runs[i] = rr
@@ -481,7 +492,7 @@ func runCase(c *Case) *Result {
 		i = j
 	}
 	for i := range res.Runs {
-		if res.Runs[i].Err == "" && res.Runs[i].ErrType == "" {
+		if res.Runs[i].Err == "" && res.Runs[i].ErrType == "" && !poisonResults {
 			res.Runs[i].Data = toJSON(rawData[i])
 		}
 	}
@@ -563,4 +574,46 @@ func main() {
 		}
 	}
 	_ = out.Close()
+}
+
+// poison overwrites returned data in place: every map gets the key "poisoned", bool values are flipped, other scalars become
+// the text "POISONED", lists have their elements overwritten.
+func poison(v any) {
+	switch t := v.(type) {
+	case map[string]any:
+		for k, e := range t {
+			switch ev := e.(type) {
+			case map[string]any, map[any]any, []any:
+				poison(ev)
+			case bool:
+				t[k] = !ev
+			default:
+				t[k] = "POISONED"
+			}
+		}
+		t["poisoned"] = true
+	case map[any]any:
+		for k, e := range t {
+			switch ev := e.(type) {
+			case map[string]any, map[any]any, []any:
+				poison(ev)
+			case bool:
+				t[k] = !ev
+			default:
+				t[k] = "POISONED"
+			}
+		}
+		t["poisoned"] = true
+	case []any:
+		for i, e := range t {
+			switch ev := e.(type) {
+			case map[string]any, map[any]any, []any:
+				poison(ev)
+			case bool:
+				t[i] = !ev
+			default:
+				t[i] = "POISONED"
+			}
+		}
+	}
 }
